@@ -1,8 +1,8 @@
 /-
 Model driver for C03 (pattern matching and unpacking). Stateful line protocol:
 
-  cfg <0|1>×5                      which repairs the mirrored code contains (Match.Cfg: sizeNullJumps,
-                                   nestedLast, accessFalls, rangeSlices, subjectCopied); response `ok`
+  cfg <0|1>×6                      which repairs the mirrored code contains (Match.Cfg: sizeNullJumps,
+                                   nestedLast, accessFalls, rangeSlices, subjectCopied, typedFirst); response `ok`
   arms <nvars> <v|e|m> <arm>*      set the current match; response `ok`
       arm   := (arm (<alt>*) <guard>)            no alternatives = `else`
       alt   := (one <pat>) | (many <pat>*)
@@ -15,7 +15,8 @@ Model driver for C03 (pattern matching and unpacking). Stateful line protocol:
   s <val>*                         run the current match on the subject(s); response
       `A<i> <regs> T:<trace>` | `N <regs> T:<trace>` | `E:<class>`
       and, after ` ; `, the guide-level (declarative) verdict for the same case
-      `GA<i> <bound>` | `GN`  — evaluated by `Drivers` glue `guideArms` below
+      `GA<i> <bound> R: <regs>` | `GN R: <regs>` (regs = only the selected alternative's bindings
+      written) — evaluated by `Drivers` glue `guideArms` below
       (regs = registers 0..nvars-1, then the subject locals 99, 98, …; unassigned = sU)
   ma (<tgt>*) <val>|(g <val>*)     multi-assignment; tgt := <n> | _ ; response `<regs> = <value>`
   mt (<tgt>*) <val>*               multi-assignment from a temporary tuple
@@ -151,6 +152,13 @@ def guideEnts : List Ent → Val → Option Writes
 /-- sequence view including bounded ascending ranges (elements only; slicing a range has no
 guide-level meaning and is reported as `none` = "no verdict") -/
 def guideView (v : Val) : Option (List Val × (Nat → Nat → Val)) :=
+  match v with
+  | .str bs =>
+    -- the guide-level elements of a string are its characters (as in unpacking); on ASCII
+    -- strings this is the byte view of `Match.view` (F-C03-10 otherwise)
+    let cs := Unpack.splitChars bs []
+    some (cs.map Val.str, fun i j => .str (((cs.drop i).take (j - i)).flatten))
+  | _ =>
   match view v with
   | some r => some r
   | none =>
@@ -238,8 +246,8 @@ def step (st : St) (line : String) : St × String :=
        ({ st with nvars := n, mode := mode, arms := as },
         s!"ok early={if as.any armEarly then 1 else 0} binds99={if as.any armBinds99 then 1 else 0}")
      | _, _ => (st, "bad-request"))
-  | [.atom "cfg", .atom a, .atom b, .atom c, .atom d, .atom e] =>
-    ({ st with cfg := ⟨a == "1", b == "1", c == "1", d == "1", e == "1"⟩ }, "ok")
+  | [.atom "cfg", .atom a, .atom b, .atom c, .atom d, .atom e, .atom f] =>
+    ({ st with cfg := ⟨a == "1", b == "1", c == "1", d == "1", e == "1", f == "1"⟩ }, "ok")
   | .atom "s" :: vals =>
     (match vals.mapM parseVal with
      | none => (st, "bad-request")
@@ -267,7 +275,8 @@ def step (st : St) (line : String) : St × String :=
            | some (i, β) =>
              let ρ := ρ0.apply β
              s!"GA{i}" ++ String.join ((dedupNames (β.map Prod.fst)).map (fun n => s!" {n}:{valStr (ρ n)}"))
-           | none => "GN"
+               ++ " R: " ++ regsStr st.nvars k ρ
+           | none => "GN R: " ++ regsStr st.nvars k ρ0
          (st, code ++ " ; " ++ guide))
   | [.atom "ma", .list ts, rhs] =>
     (match parseTgts ts with
